@@ -1,7 +1,7 @@
 #!/usr/bin/env python3
 """Regenerates MANIFEST.json from the table below (run by hand after changing what is claimed)."""
 import json, os
-HERE = os.path.dirname(os.path.abspath(__file__))
+HERE = os.path.dirname(os.path.dirname(os.path.abspath(__file__)))
 CLAIMED = json.load(open(os.path.join(HERE, "claims.json")))
 man = {
     "version": 1,
